@@ -52,11 +52,25 @@ def make_case(seed, index, tier):
                            # the inner re-entrant level lives in an async generator that the
                            # owner closes again: that level is left by GeneratorExit while the
                            # activity itself goes on holding the outer level
-                           'via_generator': rng.random() < 0.3})
+                           'via_generator': rng.random() < 0.3,
+                           # the block is left by an exception that the contender handles itself
+                           'leave_by': rng.choice([None, None, None, None, 'err', 'exit', 'kbd'])})
         contenders.append({'name': 'p%d' % number, 'rounds': rounds})
     # the locks may have served an earlier simulation (e.g. module-level locks)
     return {'seed': seed, 'index': index, 'tier': tier, 'scenario': contenders,
             'reused': rng.random() < 0.5}
+
+
+class Leave(Exception):
+    pass
+
+
+class LeaveExit(SystemExit):
+    pass
+
+
+class LeaveKbd(KeyboardInterrupt):
+    pass
 
 
 class LockChecker:
@@ -190,7 +204,8 @@ def build_for(case):
                     finally:
                         checker.leave(name, index)
 
-            async def acquire(index, depth, hold, inner_wait, via_generator=False):
+            async def acquire(index, depth, hold, inner_wait, via_generator=False,
+                              leave_by=None):
                 lock = locks[index]
                 checker.request(name, index)
                 entered = False
@@ -211,7 +226,8 @@ def build_for(case):
                                 else:
                                     await instant
                             elif depth > 1:
-                                await acquire(index, depth - 1, hold, inner_wait)
+                                await acquire(index, depth - 1, hold, inner_wait,
+                                              leave_by=leave_by)
                             else:
                                 if hold:
                                     await (time + hold)
@@ -219,6 +235,9 @@ def build_for(case):
                                     await instant
                                 if inner_wait:
                                     await (time + inner_wait)
+                                if leave_by is not None:
+                                    raise {'err': Leave, 'exit': LeaveExit,
+                                           'kbd': LeaveKbd}[leave_by]()
                         finally:
                             checker.leave(name, index)
                 except BaseException:
@@ -230,8 +249,13 @@ def build_for(case):
                 for round_ in spec['rounds']:
                     if round_['offset']:
                         await (time + round_['offset'])
-                    await acquire(round_['lock'], round_['depth'], round_['hold'],
-                                  round_['inner_wait'], round_.get('via_generator', False))
+                    try:
+                        await acquire(round_['lock'], round_['depth'], round_['hold'],
+                                      round_['inner_wait'], round_.get('via_generator', False),
+                                      round_.get('leave_by'))
+                    except (Leave, LeaveExit, LeaveKbd):
+                        checker.stats['left_by_exception'] = checker.stats.get(
+                            'left_by_exception', 0) + 1
             return run
         participants = [(spec['name'], contender(spec)) for spec in case['scenario']]
         return participants, (), checker
